@@ -44,7 +44,7 @@ Next ==
   \/ \E m \in Methods, c \in CTypes, h \in Hdrs, w \in Whois, p \in Paths \ {"dash"} :
        \E b \in BodiesTab[p] :
          LET r == [method |-> m, ctype |-> c, hdr |-> h, path |-> p, whois |-> w, body |-> b] IN
-         (H!Gate(r) = "pass" \/ RefusedHere) /\ H!Serve(r) /\ req' = r
+         (H!Gate(r, TRUE) = "pass" \/ RefusedHere) /\ H!Serve(r) /\ req' = r
   \/ ("dash" \in Paths /\ \E m \in Methods, w \in Whois :
        LET r == [method |-> m, ctype |-> "none", hdr |-> "none", path |-> "dash", whois |-> w,
                  body |-> [class |-> "empty", args |-> A("", 0, FALSE, "E")]] IN
